@@ -181,8 +181,20 @@ def mixed_graph(rng, with_custom=True, fixed_mode='first'):
     else:
         ffp = False
         pose_vs = [v for v in vs2 if not isinstance(v.pose, (PoseR2, PoseR3)) or kind in ('R2', 'R3')]
-        for v in rng.sample(pose_vs, rng.randint(1, max(1, len(pose_vs) // 2))):
-            v.fixed = rng.choice([True, True, np.bool_(True), 1])        # a flag from a numpy mask or an int is as good as True
+        chosen = rng.sample(pose_vs, rng.randint(1, max(1, len(pose_vs) // 2)))
+        intended_ids = set(v.id for v in chosen)
+        if rng.random() < 0.4:
+            # the flag given at construction, as the documented third POSITIONAL argument: Vertex(id, pose, True)
+            vs3 = [Vertex(v.id, v.pose, True) if any(v is c for c in chosen) else v for v in vs2]
+            for e in es:
+                e.vertices = None
+            listed = list(vs3)
+            g2 = Graph(es, vs3)
+            g2._verif_listed = listed
+        else:
+            for v in chosen:
+                v.fixed = rng.choice([True, True, np.bool_(True), 1])        # a flag from a numpy mask or an int is as good as True
+        g2._verif_fixed_ids = intended_ids          # what the CALLER marked fixed (the oracle never reads this back from the objects)
     return g2, kind, ffp
 
 
@@ -344,6 +356,13 @@ def fixed_vertices(seed, n):
         if mode in ('wellposed', 'station', 'shared_start') and mode != 'shared_start':
             prehistory(rng, g, 0.3)
         listed = getattr(g, '_verif_listed', None)
+        meant = getattr(g, '_verif_fixed_ids', None)
+        if meant is not None and mode in ('wellposed', 'diverge', 'underconstrained'):
+            lost = [v.id for v in g._vertices if v.id in meant and not v.fixed]
+            if lost:
+                fails.append({'law': 'vertices created with the fixed flag set (keyword, third positional argument, numpy bool or 1) are not fixed: ids %s' % lost[:3],
+                              'seed': seed, 'case': i, 'edge': 'graph'})
+                continue
         flags0 = [bool(v.fixed) for v in vs]
         before = [np.array(v.pose).copy() for v in vs]
         iters = rng.randint(1, 20)
@@ -493,7 +512,12 @@ def representation_independence(seed, n):
         g0._vertices[0].fixed = True
         iters = rng.randint(1, 3)
         base = copy.deepcopy(g0)
-        ref, cref = run(copy.deepcopy(base), iters)
+        try:
+            ref, cref = run(copy.deepcopy(base), iters)
+        except Exception as ex:  # noqa
+            fails.append({'law': 'optimize raised %r on a freshly built graph (some of its edge objects had been bound to other Vertex objects before)' % (ex,),
+                          'seed': seed, 'case': i, 'kind': kind, 'edge': 'graph'})
+            continue
         if not np.isfinite(cref):
             continue
         c0 = base.calc_chi2()
@@ -521,6 +545,20 @@ def representation_independence(seed, n):
                     fails.append({'law': 'optimization result changes under %s' % name, 'seed': seed, 'case': i, 'kind': kind, 'vertex': vid,
                                   'expected': p.tolist(), 'got': q.tolist(), 'edge': 'graph'})
                     return
+        # the same edge OBJECTS reused for a second graph whose vertices are new objects re-expressed from the initial values (permuted list)
+        gA = copy.deepcopy(base)
+        init = [(v.id, v.pose.copy(), bool(v.fixed)) for v in gA._vertices]
+        try:
+            run(gA, iters)
+            vB = []
+            for vid, p0, fx in init:
+                if isinstance(p0, PoseSE2):
+                    p0 = PoseSE2([p0[0], p0[1]], float(p0[2]) + 2 * math.pi * rng.randint(-2, 2))
+                vB.append(Vertex(vid, p0, fixed=fx))
+            rng.shuffle(vB)
+            check('building a second graph from the SAME edge objects and new vertex objects holding the initial values', Graph(gA._edges, vB))
+        except Exception as ex:  # noqa
+            fails.append({'law': 'edge reuse raised %r' % (ex,), 'seed': seed, 'case': i, 'kind': kind, 'edge': 'graph'})
         # permute the edge list
         g2 = copy.deepcopy(base); rng.shuffle(g2._edges); check('a permutation of the edge list', Graph(g2._edges, g2._vertices))
         # permute the vertex list (same vertices fixed)
@@ -600,6 +638,24 @@ def representation_independence(seed, n):
                     e.estimate = PoseSE3(e.estimate[:3], -np.asarray(e.estimate[3:]))
                 if isinstance(e, EdgeLandmark) and rng.random() < 0.5:
                     e.offset = PoseSE3(e.offset[:3], -np.asarray(e.offset[3:]))
+            check('negating unit quaternions (block-diagonal information)', Graph(g2._edges, g2._vertices))
+            # "no sensor offset" written as the identity with its quaternion negated: (0, 0, 0, -1)
+            g2 = copy.deepcopy(base)
+            g3 = copy.deepcopy(base)
+            for ea, eb in zip(g2._edges, g3._edges):
+                if isinstance(ea, EdgeLandmark):
+                    ea.offset = PoseSE3([0.0, 0.0, 0.0], [0.0, 0.0, 0.0, 1.0])
+                    eb.offset = PoseSE3([0.0, 0.0, 0.0], [0.0, 0.0, 0.0, -1.0])
+            try:
+                ra, ca_ = run(Graph(g2._edges, g2._vertices), iters)
+                rb, cb_ = run(Graph(g3._edges, g3._vertices), iters)
+                evals += 1
+                if any(not poses_close(ra[k_], rb[k_], tol) for k_ in ra):
+                    fails.append({'law': 'an identity landmark offset written with quaternion (0,0,0,-1) instead of (0,0,0,1) changes the optimization result',
+                                  'seed': seed, 'case': i, 'kind': kind, 'edge': 'graph'})
+            except Exception as ex:  # noqa
+                fails.append({'law': 'identity-offset variant raised %r' % (ex,), 'seed': seed, 'case': i, 'kind': kind, 'edge': 'graph'})
+            g2 = copy.deepcopy(base)
             # information was generated block-diagonal here (info_cross=False -> identity)
             check('negating unit quaternions (block-diagonal information)', Graph(g2._edges, g2._vertices))
     # negated measurement quaternions written to a .g2o file (block-diagonal information): the loaded graph must optimise to the same result
@@ -750,6 +806,9 @@ def linear_optimum(seed, n):
         fixed_pos = rng.sample(range(nv), nfix)
         for k in fixed_pos:
             verts[k].fixed = True
+            if far and rng.random() < 0.7:
+                # the anchors sit at ordinary coordinates (so the optimum is of ordinary size); only the initial guess of the others is far away
+                verts[k].pose = P([rng.gauss(0, 5.0) for _ in range(d)])
         # connected: random spanning tree + loops + multi-edges (both directions) + landmark edges with offsets
         pairs = [(rng.randrange(k), k) for k in range(1, nv)]
         for _ in range(rng.randint(0, nv)):
@@ -1159,4 +1218,61 @@ def stale_cache_sequences(seed, n):
                 fails.append({'law': 'final_chi2 differs from calc_chi2() of the returned graph (sequence %s)' % seq, 'seed': seed, 'case': i, 'edge': 'graph'})
         except Exception as ex:  # noqa
             fails.append({'law': 'sequence %s raised %r' % (seq, ex), 'seed': seed, 'case': i, 'edge': 'graph'})
+    # a user edge type whose chi2 is not the plain quadratic form (it overrides calc_chi2): the graph's chi2 is the sum of what the edges' calc_chi2()
+    # return, in the report exactly as in Graph.calc_chi2()
+    class RobustOdometry(EdgeOdometry):
+        def calc_chi2(self):
+            q = float(EdgeOdometry.calc_chi2(self))
+            return q if q <= 1.0 else 2.0 * math.sqrt(q) - 1.0
+    for i in range(max(2, n // 5)):
+        kind = rng.choice(['SE2', 'R2'])
+        g, _ = oe.build_graph(rng, kind, nv=rng.randint(3, 5), landmarks=False, noise=0.3, pert=0.3)
+        es = list(g._edges)
+        k_ = rng.randrange(len(es))
+        es[k_] = RobustOdometry(list(es[k_].vertex_ids), es[k_].information, es[k_].estimate)
+        for e in es:
+            e.vertices = None
+        g = Graph(es, g._vertices)
+        try:
+            c_now = copy.deepcopy(g).calc_chi2()
+            res = g.optimize(tol=0.0, max_iter=rng.randint(1, 3), verbose=False)
+            evals += 1
+            if res.initial_chi2 != c_now:
+                fails.append({'law': 'a graph with an edge type overriding calc_chi2(): initial_chi2 %r is not calc_chi2() %r of the starting state' % (res.initial_chi2, c_now),
+                              'seed': seed, 'case': i, 'kind': kind, 'edge': 'graph'})
+                continue
+            if res.final_chi2 != copy.deepcopy(g).calc_chi2():
+                fails.append({'law': 'a graph with an edge type overriding calc_chi2(): final_chi2 differs from calc_chi2() of the returned graph', 'seed': seed, 'case': i, 'edge': 'graph'})
+        except Exception as ex:  # noqa
+            fails.append({'law': 'robust-edge graph raised %r' % (ex,), 'seed': seed, 'case': i, 'edge': 'graph'})
+    # states where the Gauss-Newton step is exactly zero (every vertex fixed; or an exactly consistent integer graph): the documented rule decides, not the step
+    import corr_optloop as _co
+    for i in range(max(2, n // 5)):
+        mode = rng.choice(['all_fixed', 'exact'])
+        if mode == 'all_fixed':
+            g, _ = oe.build_graph(rng, rng.choice(['SE2', 'R2', 'SE3']), nv=rng.randint(3, 4), landmarks=False, noise=0.2, pert=0.2)
+            for v in g._vertices:
+                v.fixed = True
+        else:
+            vs_ = [Vertex(k, PoseSE2([float(k), 0.0], 0.0)) for k in range(4)]
+            es_ = [EdgeOdometry([k, k + 1], np.eye(3), PoseSE2([1.0, 0.0], 0.0)) for k in range(3)]
+            g = Graph(es_, vs_)
+        try:
+            c = float(copy.deepcopy(g).calc_chi2())
+            for tl in (0.0, 1e-6):
+                for mi in (1, 2, 5):
+                    g2 = copy.deepcopy(g)
+                    res = g2.optimize(tol=tl, max_iter=mi, verbose=False)
+                    evals += 1
+                    exp = _co.expected_from_sequence([c] * (mi + 2), tl, mi)
+                    got = (bool(res.converged), res.num_iterations, len(res.iteration_results))
+                    want = (exp['converged'], exp['num_iterations'], len(exp['iters']))
+                    if got != want:
+                        fails.append({'law': '%s graph (the solved step is exactly zero, chi2 constant %r): tol=%g max_iter=%d reports (converged, num_iterations, entries) = %s, '
+                                             'the documented rule gives %s' % (mode, c, tl, mi, got, want), 'seed': seed, 'case': i, 'edge': 'graph'})
+                        raise StopIteration
+        except StopIteration:
+            pass
+        except Exception as ex:  # noqa
+            fails.append({'law': 'zero-step graph raised %r' % (ex,), 'seed': seed, 'case': i, 'edge': 'graph'})
     return evals, fails
